@@ -477,10 +477,12 @@ theorem errorPath_sent {W : Type} (S : ServerEnv) (c : Codec W) (R : Render) (xv
     (hs : Sendable (S.info xv.cls)) (sent : Exc) (w : W) (h : serializeException c R xv tb = .ok (sent, w)) :
     errorPath S c R xv tb cb = ⟨some ⟨true, false, w⟩, fateAfter (S.info xv.cls) cb⟩ := by
   unfold errorPath fateAfter
-  have hcond : (!(S.info xv.cls).isConnClosed && ((S.info xv.cls).isSerialize || !(S.info xv.cls).isComm)) = true := by
+  have hcond : repliesTo (S.info xv.cls) = true := by
+    unfold repliesTo
     rw [hs.notClosed]
     rcases hs.serOrNotComm with h1 | h1 <;> simp [h1]
-  simp only [hcond, if_true, h]
+  simp only [hcond, if_true, h, reraisesAfter]
+  rfl
 
 /-! ### the concrete tree codec satisfies the law -/
 
